@@ -116,6 +116,11 @@ Definition sstep_core (w : sworld) (o : op) (cs : list N) : sworld * wout :=
   | OStore so =>
       let '(e', out) := env_sop (s_env w) (l_view (s_life w)) (s_hs w) so in (s_with_env w e', out)
   | ODropWorld => (s_with_env w (env_drop_world (s_env w)), WUnit)
+  | OQuiet so =>
+      (s_with_env w (env_sop_quiet (s_env w) (l_view (s_life w)) (s_hs w) so), WUnit)
+  | OLazyInsert _ h _ | OLazyRemove _ h => (w, match hget (s_hs w) h with Some _ => WUnit | None => WSkip end)
+  | OLazyInsertAll _ l => (w, match hget_all (s_hs w) (map fst l) with Some _ => WUnit | None => WSkip end)
+  | OLazyExec _ => (w, WUnit)
   | OBad => (w, WSkip)
   end.
 
